@@ -157,7 +157,7 @@ type PathRules struct {
 	// OnBackEdge is called before a loop back edge is taken; returning false ends the path there.
 	OnBackEdge func(s *PathState, from, to *ssa.BasicBlock) bool
 	LoopBound  int
-	MaxPaths  int
+	MaxPaths   int
 }
 
 // PathResult summarises an exploration.
@@ -385,7 +385,6 @@ func refine(s *PathState, cond ssa.Value, val bool) {
 
 // BlockPath renders the visited blocks of a path.
 func (s *PathState) BlockPath() string { return fmt.Sprint(s.Blocks) }
-
 
 func eqOperand(v ssa.Value) string {
 	if c, ok := v.(*ssa.Const); ok {
